@@ -58,6 +58,11 @@ def model_line(scenario, kind='rat'):
                     # What the object promises is decided on entry, so for the machine this is `sleep d; claim ...`
                     out.append(['sleep', e[4]])
                     out.append(fix([e[0][:-5]] + e[1:4] + e[5:]))
+                elif isinstance(e, list) and e and e[0] in ('intervallater', 'delayiterlater'):
+                    # ['intervallater', period, n, d, body...]: the ticker object is made, `d` passes, the loop is entered. The grid
+                    # starts where the iteration starts, so for the machine this is `sleep d; interval ...`
+                    out.append(['sleep', e[3]])
+                    out.append(fix([e[0][:-5]] + e[1:3] + e[4:]))
                 else:
                     out.append(fix(e))
             return out
@@ -608,12 +613,21 @@ class Interp:
                 raise
             else:
                 self.emit(label, 'tdone', [s[1]])
+        elif h in ('intervallater', 'delayiterlater'):
+            from usim import interval, delay
+            made = None
+            if s[2] > 0:
+                made = (interval if h == 'intervallater' else delay)(self.tv(s[1]))
+            await self.stmt(label, ['sleep', s[3]])
+            self._premade_ticker = made
+            await self.stmt(label, [h[:-5], s[1], s[2]] + list(s[4:]))
         elif h in ('interval', 'delayiter'):
             from usim import interval, delay
+            premade, self._premade_ticker = getattr(self, '_premade_ticker', None), None
             n = 0
             self.emit(label, 'tbegin', [1 if h == 'interval' else 0] + tpair(s[1], self.kind) + [s[2]])
             if s[2] > 0:
-                async for _now in (interval if h == 'interval' else delay)(self.tv(s[1])):
+                async for _now in (premade if premade is not None else (interval if h == 'interval' else delay)(self.tv(s[1]))):
                     self.emit(label, 'tick')
                     await self.block(label, s[3:])
                     self.emit(label, 'tbodyend')
